@@ -248,8 +248,20 @@ def f_tobytes(a):
     out = m.to_bytes()
     syms = sorted({x for x in m.alphabet if x != EPSILON})
     cps, bts = _byte_tables(syms)
-    return {"op": "tobytes", "sr": srmodel(a["sr"]), "M": a["M"], "out": wfsa_proj(out, expect_R=m.R), "sigma": [tname(x) for x in syms],
-            "cps": cps, "bytes": bts, "L": a["L"]}
+    e = {"op": "tobytes", "sr": srmodel(a["sr"]), "M": a["M"], "out": wfsa_proj(out, expect_R=m.R), "sigma": [tname(x) for x in syms],
+         "cps": cps, "bytes": bts, "L": a["L"]}
+    # m.to_bytes()(bs): the library's own evaluation of the byte-level machine, on the encodings of a few strings
+    calls = []
+    strs = [s for n in range(3) for s in itertools.product(syms, repeat=n)]
+    for s in strs[:: max(1, len(strs) // 5)][:5]:
+        bs = list("".join(s).encode("utf-8"))
+        try:
+            calls.append([[tname(b) for b in bs], enc_w(m.R, coerce(m.R, out(tuple(bs))))])
+        except Exception:  # noqa: BLE001
+            pass
+    if calls:
+        e["calls"] = calls
+    return e
 
 
 def f_gtobytes(a):
